@@ -141,6 +141,9 @@ def rename_extrema_df(center_extrema, df_features, return_samples=True):
     """
 
     # Rename columns if they are actually trough-centered
+    if center_extrema not in ('peak', 'trough'):
+        raise ValueError('Parameter "center_extrema" must be either "peak" or "trough"')
+
     if center_extrema == 'trough':
 
         features_rename_dict = {'time_peak': 'time_trough',
